@@ -49,13 +49,11 @@ func lzhuf.(*Reader).getBit(d) (c)
   props C08 C03
   requires src: d.r.r != nil
   ensures bit: c == 0 || c == 1
-  ensures src: d.r.r != nil
 
 func lzhuf.(*Reader).getByte(d) (c)
   props C08 C03
   requires src: d.r.r != nil
   ensures byte: 0 <= c && c <= 255
-  ensures src: d.r.r != nil
 
 func lzhuf.(*Reader).advanceState(d) ()
   props C08 C03
@@ -92,11 +90,62 @@ func lzhuf.(*Reader).decodeChar(d) (c)
   requires src: d.r.r != nil
   requires z: d.z != nil && HuffInv(d.z)
   ensures sym: 0 <= c && c < _NumChar
-  ensures z: d.z == old(d.z) && HuffInv(d.z)
-  ensures src: d.r.r != nil
-  ensures frame: d.state.r == old(d.state.r) && d.state.pos == old(d.state.pos) && d.header.size == old(d.header.size) && d.state.buf.len == old(d.state.buf.len)
+  ensures z: HuffInv(d.z)
   loop 0 invariant node: (0 <= c && c + 1 < _R) || (_T <= c && c < _T + _NumChar)
-  loop 0 invariant z: d.z == old(d.z) && d.z != nil && HuffInv(d.z) && d.r.r != nil
-  loop 0 invariant frame: d.state.r == old(d.state.r) && d.state.pos == old(d.state.pos) && d.header.size == old(d.header.size) && d.state.buf.len == old(d.state.buf.len)
   loop 0 decreases ite(c < _T, c + 1, 0)
+
+func lzhuf.(*Reader).decodePosition(d) (r)
+  props C08 C03
+  requires src: d.r.r != nil
+  loop 0 decreases j
+
+# ---------------------------------------------------------------------------
+# Reader: representation invariant, Read, Close
+#   delivered bytes so far  ==  state.pos - state.buf.len
+# ---------------------------------------------------------------------------
+
+pred ReaderInv(d) :=
+     d.z != nil && HuffInv(d.z)
+  && d.r.r != nil && d.crcw != nil
+  && 0 <= d.state.r && d.state.r < _N
+  && 0 <= d.state.buf.len && d.state.buf.len <= d.state.pos
+  && d.state.pos <= max(d.header.size, 0)
+
+func lzhuf.(*Reader).Read(d, p) (n, err)
+  props C08 C03
+  requires inv: ReaderInv(d)
+  ensures inv: ReaderInv(d)
+  ensures bounds: 0 <= n && n <= len(p)
+  ensures progress: len(p) > 0 ==> n > 0 || err != nil
+  ensures delivered: d.state.pos - d.state.buf.len == old(d.state.pos) - old(d.state.buf.len) + n
+  ensures bounded-output: d.state.pos - d.state.buf.len <= max(d.header.size, 0)
+  ensures header: d.header.size == old(d.header.size) && d.header.crc == old(d.header.crc)
+  loop 0 invariant inv: ReaderInv(d)
+  loop 0 invariant n: 0 <= n && n <= len(p)
+  loop 0 invariant delivered: d.state.pos - d.state.buf.len - n == old(d.state.pos) - old(d.state.buf.len)
+  loop 0 invariant progress: n > 0 || (d.state.pos == old(d.state.pos) && d.r.err == old(d.r.err))
+  loop 0 decreases d.header.size - d.state.pos
+  loop 1 invariant inv: ReaderInv(d)
+  loop 1 invariant n: 0 <= n && n <= len(p)
+  loop 1 invariant k: 0 <= k && 3 <= j && j <= 60 && 0 <= i && i < _N
+  loop 1 invariant delivered: d.state.pos - d.state.buf.len - n == old(d.state.pos) - old(d.state.buf.len)
+  loop 1 invariant progress: k > 0 ==> n > 0
+  loop 1 invariant pos: (k == 0 ==> d.state.pos == entry(d.state.pos)) && (k > 0 ==> d.state.pos > entry(d.state.pos))
+  loop 1 decreases j - k
+
+# crcFlush(s): the CRC value reported for accumulator state s (C07 pins it to CRC-16/XMODEM)
+fn crcFlush(Int) Int
+
+func lzhuf.(*crcWriter).Sum(w) (r)
+  props C08 C04 C07
+  ensures_trusted def: r == crcFlush(w.sum)
+  ensures frame: w.sum == old(w.sum)
+
+# Close returns success only if every integrity verdict holds
+func lzhuf.(*Reader).Close(d) (err)
+  props C08 C04
+  requires inv: d.crcw != nil
+  ensures verdict-err: err == nil ==> d.err == nil && d.r.err == nil
+  ensures verdict-size: err == nil ==> d.header.size == wrap32s(d.state.pos - d.state.buf.len)
+  ensures verdict-crc: err == nil && d.crc16 ==> d.header.crc == crcFlush(d.crcw.sum)
 @*/
